@@ -1,5 +1,6 @@
 """C19 (uni2tex) and C20 (int2name, hex colours)."""
 import json, sys, unicodedata
+import common
 from common import Report, build_and_audit, drive, fields, rng_for, leanchecker, REPO
 
 sys.path.insert(0, REPO)
@@ -42,8 +43,7 @@ def run_c19(tier, seed, rep, only_prop=False, scale=1):
             return
         lines.append(tex_line(s, out)); metas.append({"kind": kind, "input_cps": [ord(c) for c in s]})
     boring = []
-    step = 1 if tier == "thorough" or True else 1
-    for cp in range(0, 0x110000, step):
+    for cp in (range(0, 0x110000) if common.exhaustive_here() else ()):
         c = chr(cp)
         if cp < 128 or unicodedata.decomposition(c) or unicodedata.category(c)[0] == "M":
             for s, k in ((c, "alone"), ("a" + c, "after"), (c + "a", "before"), ("a" + c + "b", "middle")):
@@ -55,7 +55,7 @@ def run_c19(tier, seed, rep, only_prop=False, scale=1):
     if boring:
         add("".join(boring), "chunk")
     rng = rng_for(seed, "c19")
-    n = (20000 if tier == "quick" else 400000) * scale
+    n = common.count(tier, 20000, 400000) * scale
     for _ in range(n):
         k = rng.randint(0, 12)
         s = "".join(rng.choice(rng.choice(POOLS)) if rng.random() < 0.9 else chr(rng.choice([rng.randint(0, 0x2FF), rng.randint(0x300, 0x36F), rng.randint(0x1E00, 0x1EFF), rng.randint(0, 0x10FFFF)])) for _ in range(k))
@@ -79,7 +79,7 @@ def run_c20(tier, seed, rep, only_prop=False, scale=1):
     lines, metas = [], []
     N = 1000000 if tier == "quick" else 3000000
     B = 2000
-    for start in range(0, N, B - 1):
+    for start in (range(0, N, B - 1) if common.exhaustive_here() else ()):
         names = [int2name(i) for i in range(start, min(start + B, N + 1))]
         lines.append("names|%d|%s" % (start, ";".join(cps(n) for n in names))); metas.append({"kind": "names", "start": start, "count": len(names)})
     digs = "0123456789abcdefABCDEF"
@@ -90,12 +90,12 @@ def run_c20(tier, seed, rep, only_prop=False, scale=1):
             rep.prop_fail.append(("colour conversion raised %s on %r" % (type(e).__name__, code), {"case": {"kind": "color", "code": code}}))
             return
         lines.append("color|%s|%d,%d,%d|%s|%s" % (cps(code), rgb[0], rgb[1], rgb[2], cps(rs), cps(h))); metas.append({"kind": "color", "code": code})
-    for a in digs:
+    for a in (digs if common.exhaustive_here() else ""):
         for b in digs:
             for c in digs:
                 addc(a + b + c); addc("#" + a + b + c)
     rng = rng_for(seed, "c20")
-    for _ in range((60000 if tier == "quick" else 1500000) * scale):
+    for _ in range(common.count(tier, 60000, 1500000) * scale):
         code = "".join(rng.choice(digs) for _ in range(6))
         addc(("#" if rng.random() < 0.5 else "") + code)
     answers = drive(lines)
@@ -157,5 +157,5 @@ def run(pid, tier, seed, replay=None):
     if tier == "thorough" and not st["broken"]:
         if not leanchecker(pid, rep.log):
             st["broken"].append("leanchecker rejected the compiled proofs")
-    rep.extra["exhaustive_part"] = ("every Unicode code point" if pid == "C19" else "every index 0..%d, every 3-digit colour code" % (1000000 if tier == "quick" else 3000000))
+    rep.extra["exhaustive_part"] = ("every Unicode code point" if pid == "C19" else "every index 0..%d, every 3-digit colour code" % common.count(tier, 1000000, 3000000))
     return rep.finish(st, ASSUME19 if pid == "C19" else ASSUME20, RULE19 if pid == "C19" else RULE20, search)
